@@ -2,7 +2,7 @@
 
 CFG = {
     "tier_a": [],
-    "model_targets": ["Encoding/Templates.vo"],
+    "model_targets": ["Encoding/Templates.vo", "Encoding/EncOk.vo"],
     "proof_targets": ["Props/C11.vo"],
     "harness": [{"bin": "h_modes", "prefix": "cases_modes", "timeout": 3000}],
     # the compared observation (class partition of probe terms) is what the property constrains and the
@@ -16,8 +16,11 @@ CFG = {
         "by the correspondence check h_modes: class partition of probe terms of the REAL term-encoding engine vs the "
         "encoded Gallina model vs the native Egg model on generated constructor-only sessions",
         "the native model coq/Egg/Model.v and its C01 theorems (Egg/CC.v), used by c11_encoded_equiv_native",
-        "the templates are transcribed by hand, not extracted from the encoder's output (no enc_ok checker): a change "
-        "of the generated rules is noticed only through the correspondence cases",
+        "the rule templates are tied to the encoder by coq/Encoding/EncOk.v enc_rules_ok: for every model case the harness "
+        "translates the text of the maintenance rules that the REAL encoder emits for the case's signature "
+        "(resolve_program in term-encoding mode) into Gallina rule values and the kernel checks that, ruleset by "
+        "ruleset, they equal the template instances enc_prog sg up to variable names (rules over __to_subsume tables "
+        "excluded); trusted there: the s-expression-to-Gallina translation in h_modes (encoded_rules_coq)",
     ],
     "theorem_backed": (
         "for every constructor-only signature with one eq-sort: (1) every ruleset / schedule of the maintenance "
@@ -38,8 +41,7 @@ CFG = {
         "(merge rule, cleanup rules, Current table), relations, delete/subsume (to_delete/to_subsume requests, "
         "delete_rule_subsume), globals via let, push/pop, extraction costs, print-size, proof mode "
         "(Proof-valued UF/view columns, Trans/Sym/Congr terms), containers, several eq-sorts, the reprint variant, "
-        "Ok/Err agreement: all by running the three real engines (h_modes); the correspondence between the "
-        "hand-transcribed templates and the rules the encoder emits: by the model cases only"
+        "Ok/Err agreement: all by running the three real engines (h_modes)"
     ),
     "assumptions": [
         "term ids are unbounded nat allocated in insertion order; ordering-max/min is the order of ids",
